@@ -16,8 +16,8 @@ func init() {
 		Rule: "complete truth tables: every assignment of {true, false, unknown, non-suppressible error} (several spellings each) to the operands of !, &&, ||, is unknown, as top-level predicate check and nested in a filter, lax and strict, silent and verbose; " +
 			"plus random condition pairs p, q on random documents whose outcomes are first observed by executing them, then p && q, q && p, p || q, q || p, !p, !!p, !(p && q) vs !p || !q, (p) is unknown and exists(e) are compared with the Kleene tables. " +
 			"Non-trivial: a compound whose operands are not both constants true/false; distinct by (expression, document, mode, options)",
-		Run:    runC11,
-		Replay: replayC11,
+		Run:          runC11,
+		Replay:       replayC11,
 		MinExercised: map[string]int64{"table.and": 300, "table.or": 300, "table.not": 50, "isunknown": 50, "law.and": 3000, "law.or": 3000, "law.dneg": 1000, "law.demorgan": 1000, "exists": 1000, "match": 1000, "law.commute.filter": 1000},
 		Assumptions: []string{
 			"an operand that raises a non-suppressible error and is evaluated must make the whole expression fail with that error; on the right of a left operand that already decides the result it may be short-circuited or reported",
